@@ -171,7 +171,7 @@ def main(tier):
         rep.add(oc)
     # block processor on the controlled pool
     bitems = []
-    scens = ["two-files", "tails", "sparse", "dups", "fail-first", "fail-mid", "fail-last", "fail-frag", "many"]
+    scens = ["two-files", "tails", "sparse", "dups", "fail-first", "fail-mid", "fail-last", "fail-frag", "fail-final-frag", "fail-final-frag-only", "fail-last-block-then-frag", "many"]
     for sc in scens:
         for W, Q in ((1, 3), (2, 3), (2, 6), (3, 4)):
             if quick and (W, Q) == (3, 4) and sc not in ("fail-mid", "two-files"):
